@@ -25,13 +25,14 @@ func supportScripts(env *Env) {
 	}
 	insts := []*Step{mk("ACGT", "CGTA", "GTAC"), mk("ACGTN", "CCGTA"), mk("A", "C", "G", "T")}
 	type call struct {
-		op string
-		a  map[string]interface{}
-		on []int
+		op     string
+		a      map[string]interface{}
+		on     []int
+		replay bool // seed replay only (operations that change their receiver in place: no support accounting)
 	}
 	calls := []call{}
 	for _, f := range [][2]int{{4, 4}, {3, 4}, {2, 4}, {1, 4}, {5, 4}} {
-		calls = append(calls, call{"BuildBootstrap", map[string]interface{}{"fp": f64(f[0]), "fq": f64(f[1])}, []int{0, 1}})
+		calls = append(calls, call{"BuildBootstrap", map[string]interface{}{"fp": f64(f[0]), "fq": f64(f[1])}, []int{0, 1}, false})
 	}
 	for l := 1; l <= 5; l++ {
 		for _, c := range []bool{true, false} {
@@ -42,7 +43,7 @@ func supportScripts(env *Env) {
 			if l == 1 {
 				on = []int{0, 1, 2}
 			}
-			calls = append(calls, call{"RandSubAlign", map[string]interface{}{"len": f64(l), "consecutive": c}, on})
+			calls = append(calls, call{"RandSubAlign", map[string]interface{}{"len": f64(l), "consecutive": c}, on, false})
 		}
 	}
 	for nb := 1; nb <= 4; nb++ {
@@ -50,9 +51,9 @@ func supportScripts(env *Env) {
 		if nb <= 3 {
 			on = []int{0, 2}
 		}
-		calls = append(calls, call{"Sample", map[string]interface{}{"nb": f64(nb)}, on})
+		calls = append(calls, call{"Sample", map[string]interface{}{"nb": f64(nb)}, on, false})
 	}
-	calls = append(calls, call{"ShuffleSequences", map[string]interface{}{}, []int{0, 2}})
+	calls = append(calls, call{"ShuffleSequences", map[string]interface{}{}, []int{0, 2}, false})
 	// rarefaction with counts that are exhausted while drawing (singletons) and with equal counts
 	for _, cs := range [][]int{{1, 1, 1, 1}, {1, 3, 1, 3}, {2, 2, 2, 2}} {
 		counts := []interface{}{}
@@ -60,8 +61,24 @@ func supportScripts(env *Env) {
 			counts = append(counts, map[string]interface{}{"n": toIface([]int{'r', '0' + i}), "c": f64(c)})
 		}
 		for _, nb := range []int{2, 3} {
-			calls = append(calls, call{"Rarefy", map[string]interface{}{"counts": counts, "nb": f64(nb)}, []int{2}})
+			calls = append(calls, call{"Rarefy", map[string]interface{}{"counts": counts, "nb": f64(nb)}, []int{2}, false})
 		}
+	}
+	// the operations that change their receiver in place: the same seed three times in a row, then again after the other
+	// seeds - whatever a call leaves behind in the process (buffers, package-level state) must not reach the next one
+	q := func(p, d int) (float64, float64) { return f64(p), f64(d) }
+	for _, r := range [][2]int{{1, 4}, {2, 4}, {4, 4}} {
+		for _, l := range [][2]int{{1, 4}, {2, 4}, {3, 4}} {
+			pp, pq := q(r[0], r[1])
+			lp, lq := q(l[0], l[1])
+			calls = append(calls, call{"AddGaps", map[string]interface{}{"pp": pp, "pq": pq, "lp": lp, "lq": lq}, []int{0, 2}, true})
+			calls = append(calls, call{"SimulateRogue", map[string]interface{}{"pp": pp, "pq": pq, "lp": lp, "lq": lq}, []int{0}, true})
+			calls = append(calls, call{"Recombine", map[string]interface{}{"pp": pp, "pq": f64(8), "lp": lp, "lq": lq, "swap": r[0] == 2}, []int{0, 2}, true})
+			calls = append(calls, call{"Swap", map[string]interface{}{"rp": pp, "rq": pq, "posp": lp, "posq": lq}, []int{0}, true})
+			calls = append(calls, call{"ShuffleSites", map[string]interface{}{"rp": pp, "rq": pq, "gp": lp, "gq": lq, "first": r[0] == 1}, []int{0}, true})
+		}
+		rp, rq := q(r[0], r[1])
+		calls = append(calls, call{"Mutate", map[string]interface{}{"rp": rp, "rq": rq}, []int{0, 2}, true})
 	}
 	nscript := 0
 	keepMemo = true
@@ -71,13 +88,17 @@ func supportScripts(env *Env) {
 			if quick && in == 1 {
 				continue
 			}
-			for d := 0; d < draws; d++ {
+			ndraws := draws
+			if c.replay {
+				ndraws = 4
+			}
+			for d := 0; d < ndraws; d++ {
 				reps := 1
 				if d < 20 {
 					reps = 3 // same seed three times: replay
 				}
 				for r := 0; r < reps; r++ {
-					a := map[string]interface{}{"seed": f64(int(env.Seed)*100003 + ci*7919 + d), "sup": r == 0}
+					a := map[string]interface{}{"seed": f64(int(env.Seed)*100003 + ci*7919 + d), "sup": r == 0 && !c.replay}
 					for k, v := range c.a {
 						a[k] = v
 					}
